@@ -72,6 +72,18 @@ def tasks(tier):
                    ok_awaitable=True, max_unknown=None, force_rc=rcf,
                    sleeper="call" if "deco" not in e else "policy")
         out.append({"family": "surface-awaitable-value", "cfg": cfg, "entry": e, "bound": 1})
+    # nobody observes the run: no metric hook, no log hook, no attempt hooks, no abort predicate
+    for M, rcf, e in itertools.product([1, 2, 3], [False, True], ["Retry.call", "AsyncRetry.call", "Policy.call", "AsyncPolicy.call",
+                                                                 "RetryPolicy.call", "AsyncRetryPolicy.call", "adeco", "deco"]):
+        cfg = dict(M=M, alphabet=["ok", "x:T", "r:T", "r:P"] if rcf else ["ok", "x:T", "x:P"], force_rc=rcf,
+                   metric=False, log=False, max_unknown=None, sleeper="call" if "deco" not in e else "policy")
+        out.append({"family": "surface-unobserved", "cfg": cfg, "entry": e, "bound": 1})
+    # an on_attempt_end hook that raises on some notification: whatever becomes of that error,
+    # the operation is never invoked again after an attempt that succeeded
+    for M, idx, e in itertools.product([2, 3], [0, 1], ["Retry.call", "AsyncRetry.call", "Policy.call", "AsyncPolicy.call"]):
+        cfg = dict(M=M, alphabet=["ok", "x:T", "r:T"], attempt_hooks="call", max_unknown=None,
+                   faults=[("aend", idx, "RuntimeError")], strat_obj=True)
+        out.append({"family": "surface-end-hook-fault", "cfg": cfg, "entry": e, "bound": 0})
     # exception objects whose truth value is False
     for M, e in itertools.product([1, 2, 3], ["Retry.call", "Policy.call", "RetryPolicy.call", "AsyncRetry.call",
                                               "AsyncPolicy.call", "Retry.context"]):
@@ -88,6 +100,16 @@ def tasks(tier):
 
 def monitor(w, cfg):
     v = []
+    if any(f[0] == "aend" for f in cfg["faults"] or ()):
+        for call in split_calls(w.trace):
+            seen_ok = False
+            for o in call.ops:
+                if seen_ok:
+                    v.append(("c04.invoked-after-success",
+                              f"operation invoked again ({o}) after an attempt that succeeded"))
+                    break
+                seen_ok = seen_ok or (o.kind == "ok" and not cfg["force_rc"])
+        return v
     for call in split_calls(w.trace):
         v.extend(check_call(cfg, call))
     return v
